@@ -977,6 +977,25 @@ rightmost_power(Term, FinalTerm, Xs) :-
     ;  Xs = [], FinalTerm = Term
     ).
 
+:- non_counted_backtracking exclude_existential_vars/3.
+
+% Witnesses are the candidates Witnesses0 (the variables of the goal that do not
+% occur in the template) that are not existentially quantified by ^.
+exclude_existential_vars([], _, []).
+exclude_existential_vars([W|Ws], ExistentialVars, Witnesses) :-
+    (  existential_var_member(ExistentialVars, W) ->
+       Witnesses = Witnesses1
+    ;  Witnesses = [W|Witnesses1]
+    ),
+    exclude_existential_vars(Ws, ExistentialVars, Witnesses1).
+
+:- non_counted_backtracking existential_var_member/2.
+
+existential_var_member([V|Vs], W) :-
+    (  V == W -> true
+    ;  existential_var_member(Vs, W)
+    ).
+
 :- non_counted_backtracking findall_with_existential/5.
 
 findall_with_existential(Template, Goal, PairedSolutions, Witnesses0, Witnesses) :-
@@ -985,7 +1004,7 @@ findall_with_existential(Template, Goal, PairedSolutions, Witnesses0, Witnesses)
        (  Goal1 = _ ^ _  ) ->
        rightmost_power(Goal1, Goal2, ExistentialVars0),
        term_variables(ExistentialVars0, ExistentialVars),
-       lists:append(Witnesses0, Witnesses, ExistentialVars),
+       exclude_existential_vars(Witnesses0, ExistentialVars, Witnesses),
        expand_goal(M:Goal2, M, Goal3),
        findall(Witnesses-Template, Goal3, PairedSolutions)
     ;  Witnesses = Witnesses0,
